@@ -78,7 +78,9 @@ def extract(repo=None, config="default", target_dir=None, quiet=True):
     if os.path.exists(marker):
         return out
     os.makedirs(CACHE, exist_ok=True)
-    tdir = target_dir or os.path.join(CACHE, "target-" + config)
+    # VERIF_TARGET_SUFFIX: the regression runners (tools/run_seeds.py, run_refactors.py) analyse several scratch copies at once and
+    # give each worker its own cargo target directory
+    tdir = target_dir or os.path.join(CACHE, "target-" + config + os.environ.get("VERIF_TARGET_SUFFIX", ""))
     os.makedirs(tdir, exist_ok=True)
     lock = open(os.path.join(CACHE, "lock-" + os.path.basename(tdir)), "w")
     fcntl.flock(lock, fcntl.LOCK_EX)
